@@ -7,3 +7,4 @@ class Plugin(HistPlugin):
     extra_import = 'HistProps HistPropCheck'
     check_fn = 'c06_check'
     FINDING_BITS = 1 | 2 | 8
+    UNDECIDED_BITS = 4
